@@ -17,7 +17,11 @@
 // sockets): it answers initialize with JSON, serves the tools/call POST (or the standalone
 // GET) with an SSE body that ends EXACTLY at the chosen byte with the chosen termination, and
 // answers every reconnect GET as scripted: ok (the events after the cursor the REAL client
-// asked for), transport error, 503, 404; an id the server never issued gets 400.
+// asked for), transport error, or the HTTP status the script names ("500", "429", "404", ...:
+// the statuses are values of the model, not one representative per class); an id the server
+// never issued gets 400.  A "stuck" server (cfg.tail) keeps ending every body at offset 0 once
+// its scripted cuts are used up and the last body ended at offset 0 - for ever, so a client
+// that does not give up is seen retrying until the virtual hour is over.
 //
 // Recorded per scenario (VERIF_OUT) for the TLA+ monitor StreamCliMon: the bodies served (start,
 // cut, which ids had been transmitted completely), every reconnect (Last-Event-ID, answers),
@@ -62,7 +66,13 @@ type c09Cfg struct {
 	Scheme string `json:"scheme"` // dec | nested
 	M      int    `json:"M"`
 	Mr     int    `json:"mr"`
+	Tail   string `json:"tail,omitempty"` // good (default) | stuck
 }
+
+// c09MaxRec bounds what is recorded of one scenario: a client that never gives up on a stuck
+// server makes thousands of reconnects in the virtual hour; bodies and reconnects beyond the
+// bound are only counted (More).
+const c09MaxRec = 64
 
 type c09Cut struct {
 	N   int    `json:"n"`
@@ -120,6 +130,7 @@ type c09Obs struct {
 	Synth   int          `json:"synth"` // error responses for the call returned by Read
 	Exit    string       `json:"exit"`
 	Div     bool         `json:"div"` // a scripted cut did not fit the body the client asked for
+	More    int          `json:"more"` // bodies served beyond the c09MaxRec recorded ones
 	Cuts    []c09Cut     `json:"cuts"`
 	Rc      [][]string   `json:"rc"`
 }
@@ -400,13 +411,17 @@ type c09Rec struct {
 	curAt   int64
 	open    bool // a reconnect group is open (attempts made, not yet closed by the next body)
 	gone    bool // the server has answered 404 once
+	lastC     int    // cursor of the last id'd event transmitted completely, over all bodies so far
+	lastEmpty string // termination of the last body if it ended at offset 0 ("" otherwise)
 }
 
 func (r *c09Rec) us() int64 { return int64(time.Since(r.t0) / time.Microsecond) }
 
 func (r *c09Rec) closeGroup() {
 	if r.open {
-		r.obs.Recon = append(r.obs.Recon, c09Recon{Sent: r.curSent, Raw: r.curRaw, Outs: r.curOuts, At: r.curAt})
+		if len(r.obs.Recon) < c09MaxRec {
+			r.obs.Recon = append(r.obs.Recon, c09Recon{Sent: r.curSent, Raw: r.curRaw, Outs: r.curOuts, At: r.curAt})
+		}
 		r.open = false
 		r.curOuts = nil
 	}
@@ -428,7 +443,7 @@ func c09JSONResp(req *http.Request, status int, body string, hdr map[string]stri
 // serveBody builds the next SSE body of the stream, starting after message `from`.
 func (r *c09Rec) serveBody(req *http.Request, from int) *http.Response {
 	st, o := r.st, r.obs
-	i := len(o.Bodies) // 0-based index of this body
+	i := len(o.Bodies) + o.More // 0-based index of this body
 	primed := st.cfg.Prime == "every" || (st.cfg.Prime == "first" && i == 0)
 	es := st.elems(from, primed)
 	var full []byte
@@ -462,6 +477,11 @@ func (r *c09Rec) serveBody(req *http.Request, from int) *http.Response {
 		// nothing left to send on a POST stream: the server closes
 		rec.N, rec.Cls, rec.Knd, rec.Off = n, "bnd", "eof", len(full)
 		body.data, body.term = full, "eof"
+	case st.cfg.Tail == "stuck" && r.lastEmpty != "":
+		// a stuck server: the last body ended at offset 0, so does this one (and every later one)
+		n = 0
+		rec.N, rec.Cls, rec.Knd, rec.Off = 0, "bnd", r.lastEmpty, 0
+		body.data, body.term = nil, r.lastEmpty
 	case st.cfg.Kind == "post":
 		rec.Off = len(full)
 		body.data, body.term = full, "eof"
@@ -470,9 +490,9 @@ func (r *c09Rec) serveBody(req *http.Request, from int) *http.Response {
 		body.data, body.term = full, "hold"
 	}
 	// ground truth: which ids have been transmitted completely
-	c := c09None
-	if i > 0 {
-		c = o.Bodies[i-1].C
+	c := r.lastC
+	if i == 0 {
+		c = c09None
 	}
 	for _, e := range es[:n] {
 		if e.cur > c {
@@ -491,7 +511,15 @@ func (r *c09Rec) serveBody(req *http.Request, from int) *http.Response {
 	if touched > 0 && es[touched-1].msg > r.wire {
 		r.wire = es[touched-1].msg
 	}
-	o.Bodies = append(o.Bodies, rec)
+	r.lastC, r.lastEmpty = c, ""
+	if rec.Knd != "none" && rec.Cls == "bnd" && rec.N == 0 {
+		r.lastEmpty = rec.Knd
+	}
+	if len(o.Bodies) < c09MaxRec {
+		o.Bodies = append(o.Bodies, rec)
+	} else {
+		o.More++
+	}
 	r.started = true
 	h := http.Header{}
 	h.Set("Content-Type", "text/event-stream")
@@ -544,7 +572,7 @@ func (r *c09Rec) RoundTrip(req *http.Request) (*http.Response, error) {
 		}
 		// a reconnect attempt
 		cur := st.cursorOf(raw, present)
-		gi := len(r.obs.Bodies) - 1 // reconnect gi follows body gi (0-based)
+		gi := len(r.obs.Bodies) + r.obs.More - 1 // reconnect gi follows body gi (0-based)
 		if !r.open {
 			r.open, r.curAt = true, r.us()
 		}
@@ -565,13 +593,17 @@ func (r *c09Rec) RoundTrip(req *http.Request) (*http.Response, error) {
 		switch ans {
 		case "terr":
 			return nil, errors.New("c09: connection refused")
-		case "5xx":
-			return c09JSONResp(req, http.StatusServiceUnavailable, "", nil), nil
 		case "404":
 			r.gone = true // a terminated session stays terminated
 			return c09JSONResp(req, http.StatusNotFound, "", nil), nil
-		case "400":
-			return c09JSONResp(req, http.StatusBadRequest, "", nil), nil
+		case "ok":
+		default:
+			// an HTTP status as the script names it: "500", "429", "403", ...
+			code, err := strconv.Atoi(ans)
+			if err != nil || code < 400 || code > 599 {
+				panic("c09: bad scripted answer " + ans)
+			}
+			return c09JSONResp(req, code, "", nil), nil
 		}
 		r.closeGroup()
 		from := cur
